@@ -77,6 +77,7 @@ type VC struct {
 	funcIDs  map[string]int
 	usedContracts map[string]bool
 	lastEnv  *specEnv
+	ensuresSeen map[*Clause]int
 	objModCache []objMod
 	localRefs map[string][]localRef
 	inTypeInv bool
@@ -113,8 +114,9 @@ type VC struct {
 }
 
 type localRef struct {
-	v ssa.Value
-	b *ssa.BasicBlock
+	v    ssa.Value
+	b    *ssa.BasicBlock
+	cell bool
 }
 
 type closureRec struct {
@@ -137,7 +139,7 @@ func NewVC(p *Program, c *Contracts, fn *ssa.Function, fc *FuncContract) *VC {
 		keyMetas: map[string]keyMeta{}, strLits: map[string]int{"": 0}, strList: []string{""},
 		typeIDs: map[string]int{}, counts: map[string]int{}, Abstract: map[string]int{},
 		loops: map[*ssa.BasicBlock]*loopInfo{}, backEdge: map[[2]int]bool{}, callOrd: map[string]int{},
-		params: map[string]sval{}, siteUsed: map[*Clause]int{}, tuples: map[ssa.Value][]string{}, funcIDs: map[string]int{}, usedContracts: map[string]bool{}, localRefs: map[string][]localRef{}, deferInfo: map[*ssa.Defer]*callInfo{}}
+		params: map[string]sval{}, siteUsed: map[*Clause]int{}, tuples: map[ssa.Value][]string{}, funcIDs: map[string]int{}, usedContracts: map[string]bool{}, ensuresSeen: map[*Clause]int{}, localRefs: map[string][]localRef{}, deferInfo: map[*ssa.Defer]*callInfo{}}
 	return vc
 }
 
